@@ -29,6 +29,8 @@ mod property_bridge;
 mod read_path;
 mod runtime_limits;
 mod txn_engine_impl;
+#[cfg(nervusdb_verif)]
+pub mod verif_clock;
 mod write_dispatch;
 mod write_forwarders;
 mod write_orchestration;
